@@ -314,7 +314,7 @@ def model_candidates(m):
         gone = m["contexts"][ci]
         if not any(gone in g["ctxs"] for g in m.get("groups", [])):
             cands.append(dict(m, contexts=m["contexts"][:ci] + m["contexts"][ci + 1:]))
-    for flag in ("leftover", "generic_objs", "foreign_early", "foreign_names", "guard", "no_context", "wrap_long"):
+    for flag in ("leftover", "generic_objs", "foreign_early", "foreign_names", "guard", "no_context", "wrap_long", "type_layout"):
         if m.get(flag):
             cands.append(dict(m, **{flag: False}))
     return cands
